@@ -6,6 +6,7 @@ CONSTANTS
   NObj = 4
   NCell = 1
   MaxOps = 2
+  StopAtEmpty = FALSE
   ScanBug = FALSE
 INVARIANT ExactlyOnce
 INVARIANT FinalOK
